@@ -2132,7 +2132,8 @@ def fam_aux(case, c):
                     if not (lay is None and uplo == 'N'):
                         kw['uplo'] = uplo
                     sub = _sub(A0, tc=tc, uplo=uplo, lay=lay)
-                    st, _ = c.call('lacpy', lapack.lacpy, (A.M, B.M), kw, 'ok', 'lacpy', sub)
+                    st, _ = c.call('lacpy', lapack.lacpy, (A.M, B.M), kw, 'ok',
+                                   'lacpy:empty-matrix' if (m == 0 or n == 0) else 'lacpy', sub)
                     c.untouched(A, 'lacpy:input-modified', 'A after lacpy', sub)
                     keep = [(i, j) for i in range(m) for j in range(n) if (uplo == 'U' and i > j) or (uplo == 'L' and i < j)]
                     c.unchanged(B, 'lacpy:footprint:B:uplo=' + uplo, 'B outside the copied part', sub, keep)
@@ -2182,7 +2183,8 @@ def fam_aux(case, c):
                     if not (lay is None and side == 'L'):
                         kw['side'] = side
                     sub = _sub(C0, v=v0, tau=tau, side=side, tc=tc, lay=lay)
-                    st, _ = c.call('larfx', lapack.larfx, (V.M, tau, C.M), kw, 'ok', 'larfx', sub)
+                    st, _ = c.call('larfx', lapack.larfx, (V.M, tau, C.M), kw, 'ok',
+                                   'larfx:empty-matrix' if (m == 0 or n == 0) else 'larfx', sub)
                     c.untouched(V, 'larfx:input-modified', 'v after larfx', sub)
                     c.unchanged(C, 'larfx:footprint:C', 'C after larfx', sub)
                     if st == 'ok' and m > 0 and n > 0:
